@@ -59,7 +59,14 @@ SameP(ep, mp) == /\ ep.fail = "" /\ ep.size = mp.size /\ ep.cur = mp.cur /\ ep.v
 Explains(c) == IF ~SameR(Ev.r, c.r) THEN FALSE
                ELSE IF c.wild THEN TRUE ELSE IF c.p.wild THEN TRUE ELSE SameP(Ev.p, c.p)
 
-TOp == /\ l <= Len(Trace) /\ Ev.ev \in Ops /\ ~wild /\ l' = l + 1
+\* The harness does not perform a Read through a reader that outlived a change of curNode (as built it
+\* serves the old DAG or spins forever): it logs stale = TRUE instead and ends the run.
+TStale == /\ l <= Len(Trace) /\ Ev.ev = "Read" /\ ~wild /\ Ev.stale /\ l' = l + 1
+          /\ "Dev_C10_StaleReader" \in Devs
+          /\ DFlush({}, d).st.rd.s = "stale"            \* the model agrees: the repaired code would have dropped it
+          /\ wild' = TRUE /\ dev' = dev \cup {"Dev_C10_StaleReader"} /\ UNCHANGED <<d, ident>>
+
+TOp == /\ l <= Len(Trace) /\ Ev.ev \in Ops /\ ~wild /\ ~Ev.stale /\ l' = l + 1
        /\ UNCHANGED ident
        /\ LET t     == Track(Devs \cap Rel(Ev.ev, d), {}, d, X)
               prim  == [devs |-> {}, r |-> t.prim.r, wild |-> t.prim.wild, p |-> t.prim.p, st |-> t.prim.st, xp |-> XP(t.prim)]
@@ -89,7 +96,7 @@ TOp == /\ l <= Len(Trace) /\ Ev.ev \in Ops /\ ~wild /\ l' = l + 1
 TWild == /\ l <= Len(Trace) /\ Ev.ev \in Ops /\ wild /\ l' = l + 1
          /\ UNCHANGED <<d, wild, dev, ident>>
 
-TNext == TReset \/ TOp \/ TWild
+TNext == TReset \/ TOp \/ TStale \/ TWild
 TSpec == TInit /\ [][TNext]_tvars
 
 TypeOK == /\ d.ws \in Nat /\ d.cur \in Nat /\ d.root \in {"pb", "raw", "tree"}
